@@ -59,6 +59,13 @@ def check_case(case):
             text = entries.entry_text(isa, name, f.operands, v)
         except (entries.Unsupported, TypeError, ValueError):
             continue
+        if k % 4 == 1 and isa == "x86" and " " in text:
+            # all operands the same register (xor %eax, %eax; vxorpd %ymm0, %ymm0, %ymm0): zero idioms are
+            # instructions like any other as far as their port pressure is concerned
+            mn_, rest_ = text.split(" ", 1)
+            ops_ = [o.strip() for o in rest_.split(",")]
+            if len(ops_) >= 2 and all(o.startswith("%") for o in ops_):
+                text = mn_ + " " + ", ".join([ops_[-1]] * len(ops_))
         try:
             pl = parser.parse_line(text, 1)
         except Exception:
